@@ -82,7 +82,8 @@ Definition inv_late (v : variant) (env : bool) (s : state) : bool :=
         (match pk (tw s) with Run => true | _ => false end
          && implb (done (progs v env) s TW)
                   (match v with
-                   | VGetSig | VGetSigTimed | VGetSigReader | VGetSigTimedReader | VGetSigPoll => m_exc (tw s) || m_sig (tw s)
+                   | VGetSig | VGetSigTimed | VGetSigReader | VGetSigTimedReader | VGetSigPoll
+                   | VGetSigF | VGetSigTimedF | VGetSigReaderF | VGetSigTimedReaderF | VGetSigPollF => m_exc (tw s) || m_sig (tw s)
                    | VSleep => m_exc (tw s)
                    | VLoop => m_fin (tw s)
                    end)).
@@ -115,7 +116,7 @@ Definition inv_progress (v : variant) (env : bool) (s : state) : bool :=
   match core_succ (progs v env) s with
   | [] => done (progs v env) s TW && done (progs v env) s TS
           || (* with the environment thread present it may be the one holding lock 0 *)
-             ((env || match v with VGetSigReader | VGetSigTimedReader => true | _ => false end)
+             ((env || match v with VGetSigReader | VGetSigTimedReader | VGetSigReaderF | VGetSigTimedReaderF => true | _ => false end)
               && match step (progs v env) s TE with Some _ => true | None => false end)
   | _ => true
   end.
